@@ -161,19 +161,21 @@ func (c Chunker) Split(total int, bounds []int) []int {
 
 // Reader drives net.Conn.Read of one endpoint and accumulates what it delivered.
 type Reader struct {
-	Conn  net.Conn
-	SC    *vlib.ScriptConn
-	op    *vlib.Op
-	buf   []byte
-	n     int
-	err   error
-	Got   []byte
-	Err   error   // the error the last Drain stopped at
-	Errs  []error // earlier errors (see Resume)
-	ErrN  int     // bytes returned together with that error
-	Panic interface{}
-	Stuck bool // the call neither finished nor blocked in the underlying Read
-	Reads int
+	Conn   net.Conn
+	SC     *vlib.ScriptConn
+	op     *vlib.Op
+	buf    []byte
+	bufLen int
+	n      int
+	err    error
+	Got    []byte
+	Err    error   // the error the last Drain stopped at
+	Errs   []error // earlier errors (see Resume)
+	ErrN   int     // bytes returned together with that error
+	ErrBuf int     // len(buf) of the Read call that returned that error
+	Panic  interface{}
+	Stuck  bool // the call neither finished nor blocked in the underlying Read
+	Reads  int
 }
 
 // Drain issues Read calls (buffer sizes from next) until one is blocked on the network with
@@ -189,6 +191,7 @@ func (r *Reader) Drain(next func() int) (blocked bool) {
 				r.buf = make([]byte, n)
 			}
 			b := r.buf[:n]
+			r.bufLen = n
 			r.op = r.SC.Start(func() { r.n, r.err = r.Conn.Read(b) })
 		}
 		fin, stuck := r.SC.WaitT(r.op, 20*time.Second)
@@ -210,6 +213,7 @@ func (r *Reader) Drain(next func() int) (blocked bool) {
 		if r.err != nil {
 			r.Err = r.err
 			r.ErrN = r.n
+			r.ErrBuf = r.bufLen
 			return false
 		}
 	}
@@ -240,6 +244,8 @@ type Pair struct {
 	HelloLen  int      // client handshake request
 	RespLen   int      // server handshake response without the inline seed frame
 	PostResp  []byte   // everything the server wrote after the response up to the client's release (seed frame ‖ early data)
+	PostSent  []byte   // what the middlebox actually delivered in its place (= PostResp unless TamperPost)
+	ClientErr error    // the error Dial returned (only with AllowClientFail)
 	Surplus   []byte   // the part of PostResp the client's handshake reads picked up (left in receiveBuffer)
 	PostQueue [][]byte // the rest of PostResp, as the client's data-phase reads will see it
 	EarlyWire [][]byte
@@ -257,6 +263,11 @@ type SetupOpts struct {
 	Hello Chunker  // chunking of the client's request towards the server
 	Resp  Chunker  // chunking of everything the server has written when it is released to the client
 	Early [][]byte // server-side Write calls issued right after WrapConn returned, before the release
+	// TamperPost, when set, rewrites everything the server wrote after its handshake response
+	// (inline seed frame ‖ early data) before the client sees any of it; pr.Keys are available.
+	TamperPost      func(pr *Pair, post []byte) []byte
+	AllowClientFail bool   // a failing client handshake is an outcome (Pair.ClientErr), not a setup error
+	EndAfterPost    string // eof | other | timeout: network error queued right behind the released bytes
 }
 
 func sender(dir int) int   { return dir }     // endpoint index that writes direction dir
@@ -374,23 +385,9 @@ func Setup(p Params, o SetupOpts) (*Pair, error) {
 		pr.EarlyWire = append(pr.EarlyWire, ws...)
 	}
 	pr.PostResp = append([]byte(nil), all[pr.RespLen:]...)
-	bounds := []int{pr.RespLen, pr.RespLen + seedFrame}
-	respSizes := o.Resp.Split(len(all), bounds)
-	pr.splitHandshakeReads(all, respSizes)
-	cc.FeedChunks(all, respSizes)
-	if !cc.Wait(opC) {
-		pr.Close()
-		return nil, errors.New("client Dial still blocked although the whole response was delivered")
-	}
-	if opC.Panic != nil || clErr != nil {
-		pr.Close()
-		return nil, fmt.Errorf("client handshake: %v panic=%v", clErr, opC.Panic)
-	}
-	pr.EP = [2]net.Conn{cl, srv}
-	pr.Rd[C2S] = &Reader{Conn: srv, SC: sc}
-	pr.Rd[S2C] = &Reader{Conn: cl, SC: cc}
 
-	// link keys: redo the client's ntor computation through the exported API
+	// link keys: redo the client's ntor computation through the exported API (needs only the
+	// client's session key pair and the server's public response)
 	if nodeID, idPub, sess, _, ok := obfs4.VerifClientArgs(cargs); ok && len(first) >= 32 {
 		var repr ntor.Representative
 		copy(repr.Bytes()[:], first[:32])
@@ -399,12 +396,12 @@ func Setup(p Params, o SetupOpts) (*Pair, error) {
 			okm := ntor.Kdf(seed.Bytes()[:], framing.KeyLength*2)
 			pr.Keys[C2S] = okm[:framing.KeyLength]
 			pr.Keys[S2C] = okm[framing.KeyLength:]
-			// cross-check against the live encoder/decoder state
-			if enc, dec, ok := obfs4.VerifConnCrypto(cl); ok {
+			// cross-check against the server's live encoder/decoder state
+			if enc, dec, ok := obfs4.VerifConnCrypto(srv); ok {
 				ek, ep, _ := enc.VerifState()
 				dk, dp, _, _, _ := dec.VerifState()
-				if string(ek) != string(pr.Keys[C2S][:32]) || string(ep) != string(pr.Keys[C2S][32:48]) ||
-					string(dk) != string(pr.Keys[S2C][:32]) || string(dp) != string(pr.Keys[S2C][32:48]) {
+				if string(ek) != string(pr.Keys[S2C][:32]) || string(ep) != string(pr.Keys[S2C][32:48]) ||
+					string(dk) != string(pr.Keys[C2S][:32]) || string(dp) != string(pr.Keys[C2S][32:48]) {
 					pr.KeyErr = "derived link keys differ from the live encoder/decoder keys"
 					pr.Keys = [2][]byte{}
 				}
@@ -415,6 +412,42 @@ func Setup(p Params, o SetupOpts) (*Pair, error) {
 	} else {
 		pr.KeyErr = "VerifClientArgs unavailable"
 	}
+
+	// the middlebox may rewrite what follows the response before the client sees any of it
+	if o.TamperPost != nil {
+		all = append(append([]byte(nil), all[:pr.RespLen]...), o.TamperPost(pr, pr.PostResp)...)
+		pr.PostSent = append([]byte(nil), all[pr.RespLen:]...)
+	} else {
+		pr.PostSent = pr.PostResp
+	}
+	bounds := []int{pr.RespLen, pr.RespLen + seedFrame}
+	var respSizes []int
+	if o.Resp.Kind == "respat" { // one cut, N bytes after the end of the response
+		respSizes = Chunker{Kind: "at", N: pr.RespLen + o.Resp.N}.Split(len(all), nil)
+	} else {
+		respSizes = o.Resp.Split(len(all), bounds)
+	}
+	pr.splitHandshakeReads(all, respSizes)
+	cc.FeedChunks(all, respSizes)
+	if o.EndAfterPost != "" {
+		cc.FeedErr(netErr(o.EndAfterPost))
+	}
+	if !cc.Wait(opC) {
+		pr.Close()
+		return nil, errors.New("client Dial still blocked although the whole response was delivered")
+	}
+	pr.EP = [2]net.Conn{cl, srv}
+	pr.Rd[C2S] = &Reader{Conn: srv, SC: sc}
+	if opC.Panic != nil || clErr != nil {
+		if o.AllowClientFail && opC.Panic == nil {
+			pr.ClientErr = clErr
+			pr.EP[0] = nil
+			return pr, nil
+		}
+		pr.Close()
+		return nil, fmt.Errorf("client handshake: %v panic=%v", clErr, opC.Panic)
+	}
+	pr.Rd[S2C] = &Reader{Conn: cl, SC: cc}
 	return pr, nil
 }
 
@@ -515,6 +548,22 @@ func (p *Pair) Fail(dir int, cls string) {
 	default:
 		p.Conn[receiver(dir)].FeedEOF()
 	}
+}
+
+func netErr(cls string) error {
+	switch cls {
+	case "timeout":
+		return vlib.TimeoutError{}
+	case "other":
+		return &net.OpError{Op: "read", Net: "tcp", Err: errors.New("connection reset by peer")}
+	}
+	return io.EOF
+}
+
+// FailWith makes ONE Read of the receiver of direction dir return the final chunk TOGETHER
+// with the network error (n > 0 and err != nil from the same call), after the queued data.
+func (p *Pair) FailWith(dir int, chunk []byte, cls string) {
+	p.Conn[receiver(dir)].FeedWithErr(chunk, netErr(cls))
 }
 
 // Reader returns the reader of direction dir.
